@@ -462,9 +462,24 @@ def r15_3(ctx) -> None:
     got = {k: (v.fn.name if isinstance(v, FuncVal) else repr(v)) for k, v in vv.items()} if isinstance(vv, dict) else {}
     n += 1
     ctx.check(got == T.VALIDATOR_KEYS, "R15.3", None, None, "_value_validators", f"validator name table differs: {got}", "7 validators", construct="_value_validators")
-    # validator semantics
+    # validator semantics: decided by folding each validator on the probe battery (rules/common.py) when that is conclusive, by shape otherwise
+    from .common import validator_accepts_exactly
+    folded = set()
+    for fname in ("is_str", "is_int", "is_bool", "is_jwk", "is_list_str", "is_url"):
+        fn = P.func(f"registry:{fname}")
+        pr = validator_accepts_exactly(eng, fn, fname)
+        if pr is None:
+            continue
+        n += 1
+        folded.add(fname)
+        what = {"is_list_str": "is_list_str does not refuse non-lists and lists with non-str members", "is_url": "is_url does not require an http(s) string"}.get(
+            fname, f"{fname} does not raise ValueError for every value that is not a {({'is_jwk': 'dict'}).get(fname, fname[3:])}")
+        ctx.check(not pr, "R15.3", fn, fn.node, f"registry:{fname} (folded on probes)", what + (": " + "; ".join(pr[:3]) if pr else ""),
+                  "accepts exactly the values of the declared type, refuses the others with ValueError", construct=f"validator {fname}")
     spec = {"is_str": "str", "is_int": "int", "is_bool": "bool", "is_jwk": "dict"}
     for fname, ty in spec.items():
+        if fname in folded:
+            continue
         fn = P.func(f"registry:{fname}")
         n += 1
         ctx.check(_raises_unless_isinstance(fn, ty), "R15.3", fn, fn.node, f"registry:{fname}", f"{fname} does not raise ValueError for every value that is not a {ty}",
@@ -481,7 +496,7 @@ def r15_3(ctx) -> None:
                 if not can_reach_exit(cfg, succ_by_label(cfg, t, "false")):
                     t2 = True
     n += 1
-    ctx.check(t1 and t2, "R15.3", fl, fl.node, "registry:is_list_str", "is_list_str does not refuse non-lists and lists with non-str members", "list of str only",
+    ctx.check(t1 and t2 or "is_list_str" in folded, "R15.3", fl, fl.node, "registry:is_list_str", "is_list_str does not refuse non-lists and lists with non-str members", "list of str only",
               construct="validator is_list_str")
     fu = P.func("registry:is_url")
     cfgu = cfg_of(fu)
@@ -493,7 +508,7 @@ def r15_3(ctx) -> None:
             if isinstance(v, tuple) and set(v) == {"http://", "https://"} and not can_reach_exit(cfgu, succ_by_label(cfgu, t, "false")):
                 sw = True
     n += 1
-    ctx.check(calls_str and sw, "R15.3", fu, fu.node, "registry:is_url", "is_url does not require an http(s) string", "str starting with http:// or https://",
+    ctx.check(calls_str and sw or "is_url" in folded, "R15.3", fu, fu.node, "registry:is_url", "is_url does not require an http(s) string", "str starting with http:// or https://",
               construct="validator is_url")
     ctx.count("R15.3", n, 14, "header table obligations")
 
